@@ -278,34 +278,38 @@ Definition t_base : list Z := [98; 97; 115; 101].
 Definition is_char (t : token) (c : Z) : bool := text_eqb (ttext t) [c].
 
 (** ** integers: state of the loop of parse_integer_with_error *)
-Record ist := mk_ist { i_val : option (list Z); i_neg : bool; i_marked : bool; i_base : option (list Z) }.
-Definition ist0 : ist := mk_ist None false false None.
+Record ist := mk_ist { i_val : option (list Z); i_neg : bool; i_sign : bool; i_marked : bool; i_base : option (list Z) }.
+Definition ist0 : ist := mk_ist None false false false None.
 
 Definition int_step (signed_ : bool) (st : ist) (t : token) : option ist :=
   match tk t with
   | TLit =>
     match i_val st with
-    | None => Some (mk_ist (Some (ttext t)) (i_neg st) (i_marked st) (i_base st))
+    | None => Some (mk_ist (Some (ttext t)) (i_neg st) (i_sign st) (i_marked st) (i_base st))
     | Some _ =>
       match i_base st with
-      | None => if i_marked st then Some (mk_ist (i_val st) (i_neg st) (i_marked st) (Some (ttext t))) else None
+      | None => if i_marked st then Some (mk_ist (i_val st) (i_neg st) (i_sign st) (i_marked st) (Some (ttext t))) else None
       | Some _ => None
       end
     end
   | TIdent =>
     match i_val st with
-    | None => Some (mk_ist (Some (ttext t)) (i_neg st) (i_marked st) (i_base st))
+    | None => Some (mk_ist (Some (ttext t)) (i_neg st) (i_sign st) (i_marked st) (i_base st))
     | Some _ =>
       match i_base st with
-      | None => if text_eqb (ttext t) t_base then Some (mk_ist (i_val st) (i_neg st) true (i_base st)) else None
+      | None => if negb (i_marked st) && text_eqb (ttext t) t_base
+                then Some (mk_ist (i_val st) (i_neg st) (i_sign st) true (i_base st)) else None
       | Some _ => None
       end
     end
   | TPunct =>
     match i_val st with
     | None =>
-      if is_char t 45 then (if signed_ then Some (mk_ist (i_val st) true (i_marked st) (i_base st)) else None)
-      else if is_char t 43 then (if signed_ then Some st else None)
+      (* at most one sign, in front of the digits *)
+      if negb (i_sign st) && is_char t 45 then
+        (if signed_ then Some (mk_ist (i_val st) true true (i_marked st) (i_base st)) else None)
+      else if negb (i_sign st) && is_char t 43 then
+        (if signed_ then Some (mk_ist (i_val st) (i_neg st) true (i_marked st) (i_base st)) else None)
       else None
     | Some _ => None
     end
@@ -356,47 +360,61 @@ Definition int_tokens_spec (signed_ : bool) (ts : list token) : option (bool * l
   | [] => None
   end.
 
-(** the deviation of the loop from the grammar: a sign or the word `base` given more than once *)
-Definition count_tok (f : token -> bool) (ts : list token) : nat := length (filter f ts).
 Definition is_sign_tok (t : token) : bool := is_punct_char t 45 || is_punct_char t 43.
-Definition int_lax (ts : list token) : Prop :=
-  (1 < count_tok is_sign_tok ts)%nat \/ (1 < count_tok is_base_tok (tl ts))%nat.
-Definition int_laxb (ts : list token) : bool :=
-  (1 <? count_tok is_sign_tok ts)%nat || (1 <? count_tok is_base_tok (tl ts))%nat.
 
 (** ** ratios: state of the loop of parse_ratio_with_error *)
 Record rst := mk_rst {
-  r_num : option (list Z); r_nneg : bool; r_den : option (list Z); r_dneg : bool;
+  r_num : option (list Z); r_nneg : bool; r_nsign : bool; r_den : option (list Z); r_dneg : bool; r_dsign : bool;
   r_dmark : bool; r_relaxed : bool; r_bmark : bool; r_base : option (list Z) }.
-Definition rst0 : rst := mk_rst None false None false false false false None.
+Definition rst0 : rst := mk_rst None false false None false false false false false None.
 
 Definition rat_step (st : rst) (t : token) : option rst :=
-  let '(mk_rst num nneg den dneg dmark rel bmark base) := st in
+  let '(mk_rst num nneg nsign den dneg dsign dmark rel bmark base) := st in
   match tk t with
   | TLit =>
-    match num, den, base with
-    | None, _, _ => Some (mk_rst (Some (ttext t)) nneg den dneg dmark rel bmark base)
-    | Some _, None, _ => Some (mk_rst num nneg (Some (ttext t)) dneg dmark rel bmark base)
-    | Some _, Some _, None => if bmark then Some (mk_rst num nneg den dneg dmark rel bmark (Some (ttext t))) else None
-    | _, _, _ => None
+    match num, den with
+    | None, _ => Some (mk_rst (Some (ttext t)) nneg nsign den dneg dsign dmark rel bmark base)
+    | Some _, None => if dmark then Some (mk_rst num nneg nsign (Some (ttext t)) dneg dsign dmark rel bmark base) else None
+    | Some _, Some _ =>
+      match base with
+      | None => if bmark then Some (mk_rst num nneg nsign den dneg dsign dmark rel bmark (Some (ttext t))) else None
+      | Some _ => None
+      end
     end
   | TIdent =>
-    match num, den, base with
-    | None, _, _ => Some (mk_rst (Some (ttext t)) nneg den dneg dmark rel bmark base)
-    | Some _, None, _ => Some (mk_rst num nneg (Some (ttext t)) dneg dmark rel bmark base)
-    | Some _, Some _, None => if text_eqb (ttext t) t_base then Some (mk_rst num nneg den dneg dmark rel true base) else None
-    | _, _, _ => None
+    match num, den with
+    | None, _ => Some (mk_rst (Some (ttext t)) nneg nsign den dneg dsign dmark rel bmark base)
+    | Some _, None => if dmark then Some (mk_rst num nneg nsign (Some (ttext t)) dneg dsign dmark rel bmark base) else None
+    | Some _, Some _ =>
+      match base with
+      | None => if negb bmark && text_eqb (ttext t) t_base
+                then Some (mk_rst num nneg nsign den dneg dsign dmark rel true base) else None
+      | Some _ => None
+      end
     end
   | TPunct =>
     if is_char t 47 then
-      (if negb dmark && negb bmark then Some (mk_rst num nneg den dneg true rel bmark base) else None)
+      (* exactly one slash, after the numerator *)
+      match num with
+      | Some _ => if negb dmark && negb bmark then Some (mk_rst num nneg nsign den dneg dsign true rel bmark base) else None
+      | None => None
+      end
     else if is_char t 126 then
-      (match num, den with None, None => Some (mk_rst num nneg den dneg dmark true bmark base) | _, _ => None end)
+      match num with
+      | None => if negb rel then Some (mk_rst num nneg nsign den dneg dsign dmark true bmark base) else None
+      | Some _ => None
+      end
     else match num, den with
-         | None, _ => if is_char t 45 then Some (mk_rst num true den dneg dmark rel bmark base)
-                      else if is_char t 43 then Some st else None
-         | Some _, None => if is_char t 45 then Some (mk_rst num nneg den true dmark rel bmark base)
-                           else if is_char t 43 then Some st else None
+         | None, _ =>
+           if nsign then None
+           else if is_char t 45 then Some (mk_rst num true true den dneg dsign dmark rel bmark base)
+           else if is_char t 43 then Some (mk_rst num nneg true den dneg dsign dmark rel bmark base) else None
+         | Some _, None =>
+           if dmark then
+             if dsign then None
+             else if is_char t 45 then Some (mk_rst num nneg nsign den true true dmark rel bmark base)
+             else if is_char t 43 then Some (mk_rst num nneg nsign den dneg true dmark rel bmark base) else None
+           else None
          | _, _ => None
          end
   | TGroup => None
@@ -415,6 +433,7 @@ Definition rat_finish (st : rst) : option rat_out :=
   match r_num st with
   | None => None
   | Some n =>
+    if r_dmark st && (match r_den st with None => true | Some _ => false end) then None else
     let d := match r_den st with Some d => Some (r_dneg st, d) | None => None end in
     match r_base st with
     | Some b => Some (r_relaxed st, r_nneg st, n, d, Some b)
@@ -540,17 +559,23 @@ Definition macro_rat_value (o : rat_out) : option (bool * Z * Z) :=
 (** float.rs: the token texts are concatenated; fbig! strips the sign and one '_' itself *)
 Definition join_tokens (ts : list token) : list Z := concat (map ttext ts).
 Definition strip_us (s : list Z) : list Z := match s with 95 :: t => t | _ => s end.
-Definition fbin_text_asis (ts : list token) : sign * list Z :=
+Definition starts_with_sign (s : list Z) : bool :=
+  match s with c :: _ => (c =? 43) || (c =? 45) | [] => false end.
+(** parse_binary_float: strip one sign, strip one `_`, refuse a second sign; [None] = the macro panics *)
+Definition fbin_text_split (ts : list token) : sign * list Z :=
   match join_tokens ts with
   | 45 :: t => (Negative, strip_us t)
   | 43 :: t => (Positive, strip_us t)
   | s => (Positive, strip_us s)
   end.
+Definition fbin_text_asis (ts : list token) : option (sign * list Z) :=
+  let '(s, b) := fbin_text_split ts in if starts_with_sign b then None else Some (s, b).
 
-(** grammar: one optional sign; what follows the sign (and the one optional `_`) is an unsigned text *)
+(** grammar:  [+|-]? [_]? unsigned-text *)
 Definition fbin_text_spec (ts : list token) : option (sign * list Z) :=
-  let '(s, b) := fbin_text_asis ts in
-  match b with
-  | c :: _ => if (c =? 43) || (c =? 45) then None else Some (s, b)
-  | [] => Some (s, b)
+  let body s t := let b := strip_us t in if starts_with_sign b then None else Some (s, b) in
+  match join_tokens ts with
+  | 45 :: t => body Negative t
+  | 43 :: t => body Positive t
+  | s => body Positive s
   end.
